@@ -150,7 +150,8 @@ func SequenceContains(seq, obj Object) (found bool, err error) {
 		if err != nil {
 			return false, err
 		}
-		return result == True, nil
+		// any true value counts
+		return ObjectIsTrue(result)
 	}
 	var loopErr error
 	err = Iterate(seq, func(item Object) bool {
